@@ -25,13 +25,14 @@ let show a =
     (ozs a.Model.x_orig) cl (String.concat " " unk)
 let run line =
   match Sx.parse line with
-  | [Sx.A "upa"; Sx.L [Sx.A "g"; gas; gid; ms]; Sx.L [Sx.A "peer"; t; pas; las; rrc; rs; rm]; Sx.L [Sx.A "path"; loc; sid; at]] ->
+  | [Sx.A "upa"; Sx.L [Sx.A "g"; gas; gid; ms]; Sx.L (Sx.A "peer" :: t :: pas :: las :: rrc :: rs :: rm :: rest); Sx.L [Sx.A "path"; loc; sid; at]] ->
+      let rep = (match rest with [r] -> Sx.atom r = "1" | _ -> false) in
       let g = { Model.xg_as = z gas; xg_id = z gid; xg_members = List.map z (Sx.list ms) } in
       let q = { Model.xp_ebgp = (Sx.atom t = "e"); xp_as = z pas; xp_localas = z las; xp_localaddr = N.z_of_string "167772414";
                 xp_rrc = (Sx.atom rrc = "1"); xp_cluster = z gid; xp_rs = (Sx.atom rs = "1"); xp_rmpriv = z rm } in
       let src = { Model.xs_local = (Sx.atom loc = "1"); xs_id = z sid } in
       let a = attrs_of at in
-      "ok " ^ show (Model.update_path_attrs g q src a) ^ " " ^ show a
+      "ok " ^ show (Model.export_attrs g q src rep a) ^ " " ^ show a
   | _ -> "err unknown-op"
 let () =
   try
